@@ -382,6 +382,10 @@ func checkRuleTables(ps *propSink) {
 // date / time text forms (C14)
 
 func textHandler(args []string) (string, []string) {
+	if len(args) == 4 && args[0] == "abuse" {
+		textAbuse(atoiDef(args[1], 2000), atoiDef(args[2], 1), atoiDef(args[3], 1))
+		return "ok", nil
+	}
 	var ps propSink
 	b01 := func(b bool) string {
 		if b {
